@@ -513,6 +513,10 @@ class SymRatio:
         self.n = n
         self.c = c
 
+    def __bool__(self):
+        # the double nearest n/c is zero exactly when n is (|n/c| >= 1/c for any other n, far above the subnormals)
+        return bool(self.n != 0)
+
     def _other(self, o):
         if isinstance(o, SymRatio) and o.c == self.c:
             return o.n
